@@ -145,6 +145,14 @@ pub fn real_apply_fixpoint(portfolio: &[fn(F) -> F], formula: F) -> F {
 /// `Formula::apply_fixpoint` is run on the same input as well: the replay is the harness's own
 /// loop, and a change of the loop in /repo (a pass cap, a different exit test) is invisible to it.
 pub fn passes(portfolio: Vec<fn(F) -> F>, formula: F) -> Passes {
+    passes_with(portfolio, formula, SIZE_CAP, true)
+}
+/// the real loop is run as well when no formula of the replayed run exceeds this size (a run through
+/// formulas of 10^5 nodes takes half a minute; repeating it adds nothing about the loop)
+pub const REAL_LOOP_SIZE: u64 = 30_000;
+/// `passes` with another size cap (the generators' pre-flight uses a small one) and with / without
+/// the call of the real loop
+pub fn passes_with(portfolio: Vec<fn(F) -> F>, formula: F, size_cap: u64, call_real: bool) -> Passes {
     let input = formula.clone();
     let mut simplification = portfolio.clone().into_iter().compose();
     let mut trace = vec![measure(&formula)];
@@ -154,13 +162,15 @@ pub fn passes(portfolio: Vec<fn(F) -> F>, formula: F) -> Passes {
     let mut fuel = MAX_PASSES;
     loop {
         if previous == current {
-            let real = real_apply_fixpoint(&portfolio, input);
-            if real != current {
-                return Passes::FixpointDiffers(n, real);
+            if call_real && trace.iter().all(|e| e[0] <= REAL_LOOP_SIZE) {
+                let real = real_apply_fixpoint(&portfolio, input);
+                if real != current {
+                    return Passes::FixpointDiffers(n, real);
+                }
             }
             return Passes::Done(n, current, trace);
         }
-        if tsize(&current) > SIZE_CAP {
+        if tsize(&current) > size_cap {
             return Passes::TooLarge(n);
         }
         if fuel == 0 {
@@ -751,7 +761,7 @@ pub fn tame(f: &F) -> bool {
     // under the CLI's classic portfolio and under CLASSIC alone
     for portfolio in [[INTUITIONISTIC, HT, CLASSIC].concat(), CLASSIC.to_vec()] {
         let f2 = f.clone();
-        let r = std::panic::catch_unwind(move || passes(portfolio, f2));
+        let r = std::panic::catch_unwind(move || passes_with(portfolio, f2, 3000, true));
         let small = match r {
             Err(_) => true,
             Ok(Passes::Done(_, g, trace)) => trace.iter().all(|e| e[0] <= 3000) && tsize(&g) <= 3000,
